@@ -7,7 +7,7 @@ from ..analysis import (backslice, classify_result, switch_on_result_of, return_
                         dominated_region, must_pass_before, count_nots, switch_targets_bool, field_writes, aggregates,
                         agg_field, closure_creation, forward_locals, FLIP)
 from ..callgraph import CallGraph
-from ..facts import op_local, const_bool, op_const, place_fields, Call, rvalue_operands
+from ..facts import op_local, const_bool, op_const, place_fields, Call, rvalue_operands, const_int as const_int
 
 DOC = {
     'explanation': 'Structural clauses of the staleness protection: run_dedupe defaults modified_before from the report header on every path to dedupe() (R1); '
@@ -272,6 +272,8 @@ def r3(ctx):
     b = ctx.need_body(rule, 'dedupe::was_modified')
     if b is None:
         return
+    from ..desugar import desugared
+    b = desugared(lib, b)           # `checked_add(r).map_or(true, |t| t > after)` is `match checked_add(r) { Some(t) => t > after, None => true }`
     P = b.path
     mods = b.calls(r'^std::fs::Metadata::modified$')
     if not ctx.floor(rule, 'Metadata::modified in was_modified', len(mods), 1, b.where()):
@@ -301,6 +303,38 @@ def r3(ctx):
         for s in blk['stmts']:
             if s['p'][0] in res_locals and not s['p'][1]:
                 assigns.append((bi, s, const_bool(s['rv']['op']) if s['rv']['k'] == 'use' else None))
+    if not any(v is True for _, _, v in assigns):
+        # the same answer kept as a count: `n += 1` where the flag would be set, `n > 0` returned. An increment makes the answer true for
+        # good (the count starts at a constant and is never decreased or reset)
+        for rc in comparisons(b):
+            k_a, k_b = const_int(rc.a), const_int(rc.b)
+            if rc.dest not in rsl.locals or (k_a is None) == (k_b is None):
+                continue
+            var, k, op = (rc.a, k_b, rc.op) if k_b is not None else (rc.b, k_a, FLIP[rc.op])
+            if not ((op == '>' and k == 0) or (op == '!=' and k == 0) or (op == '>=' and k == 1)):
+                continue
+            from ..analysis import base_named_local
+            cl = base_named_local(b, var)
+            if cl is None:
+                continue
+            incs, others = [], []
+            for bi, blk in enumerate(b.blocks):
+                if blk['cleanup']:
+                    continue
+                for s in blk['stmts']:
+                    if s['p'][0] == cl and not s['p'][1]:
+                        src_ = backslice(b, rvalue_operands(s['rv']), stop_local=lambda x: x == cl)
+                        addc = [st for op_, st in src_.binops if op_.startswith('Add') and (const_int(st['rv']['b']) or 0) >= 1 and op_local(st['rv']['a']) == cl]
+                        if addc and not [1 for op_, st in src_.binops if not op_.startswith('Add')]:
+                            incs.append((bi, s, True))
+                        elif s['rv']['k'] == 'use' and const_int(s['rv']['op']) == 0 and bi not in b.reachable(b.succs(bi)[0] if b.succs(bi) else bi) - {bi} or (s['rv']['k'] == 'use' and const_int(s['rv']['op']) == 0):
+                            others.append((bi, s, False))
+                        else:
+                            others.append((bi, s, None))
+            if incs:
+                assigns = incs + others
+                res_locals = {cl}
+                break
     if br is None:
         ctx.violation(rule, P + '|relation', b.where(cmp.line), 'the mtime comparison does not control anything')
     else:
@@ -358,7 +392,10 @@ def r3(ctx):
     if sw is None or not sw['err']:
         ctx.violation(rule, P + '|unreadable-mtime', M.where(), 'the result of Metadata::modified is not matched')
     else:
-        good = all(any(v is True and bi in b.reachable(e) and b.dominates(e, bi) for bi, s, v in assigns) for e in sw['err'])
+        # every way from the failure of modified() to the return passes an assignment of `true` to the answer (the arm that does it may be
+        # shared with the failure of the link's modified())
+        true_bbs = {bi for bi, s, v in assigns if v is True}
+        good = bool(true_bbs) and all(b.must_pass(e, lambda x: x in true_bbs)[0] for e in sw['err'])
         ctx.check(good, rule, P + '|unreadable-mtime', M.where(), 'an unreadable mtime sets the answer to true', 'an unreadable mtime does not set the answer to true (fails open)')
     falses = [(bi, s) for bi, s, v in assigns if v is False]
     nonconst = [(bi, s) for bi, s, v in assigns if v is None]
@@ -367,7 +404,7 @@ def r3(ctx):
               'the answer can be reset (false assigned %d times, %d inside the loop, %d non-constant assignments)' % (len(falses), len(in_loop), len(nonconst)))
     # all files are examined
     lim = b.calls(r'Iterator::(take|skip|step_by|take_while|skip_while|filter|nth|rev)$|slice.*::(first|last|get|split_at|chunks|windows)$')
-    it = b.calls(r'slice::<impl \[T\]>::iter$|IntoIterator>::into_iter$')
+    it = b.calls(r'slice::<impl \[T\]>::iter$|IntoIterator>::into_iter$|IntoIterator::into_iter$')
     src_ok = any(1 in backslice(b, [c.args[0]]).params for c in it)
     ctx.check(not lim and src_ok, rule, P + '|all-files', b.where(), 'iterates over the whole `files` slice', 'the loop does not cover every file (%s)' % [c.path for c in lim])
     # every file's mtime is the one compared: `modified` receiver derives from the loop element
